@@ -1,0 +1,35 @@
+//go:build verif
+
+package prng
+
+// Contracts for GoVC (see /verif/DESIGN.md). Comment-only: compiles to nothing.
+//
+// U(src, k) is the k-th value of the source's deterministic output sequence and srccnt(src) the number
+// of values drawn so far (assumed contract of rand.Source.Uint64). The reader's stream position is
+// pos = 8*srccnt - ((8 - off) mod 8); byte m of the stream is byteat(U(src, m/8), m%8), a function of m
+// alone, hence independent of how reads are chunked (C19).
+//
+//@ spec byteat(x: int, k: int): int
+//@ axiom byteatDef: forall x: int, k: int {byteat(x, k)} :: byteat(x, k) == shr(x, 8 * k) % 256
+//@ spec pos(cnt: int, off: int): int = 8 * cnt - ((8 - off) % 8)
+//
+//@ func (*randReader).Read
+//@   props C19
+//@   requires shape: 0 <= r.off && r.off < 8 && r.src != nil && srccnt(r.src) >= 0 && arr(p) != arr(r.buf)
+//@   requires buffered: r.off != 0 ==> srccnt(r.src) >= 1 && (forall j: int :: 0 <= j && j < 8 ==> r.buf[j] == byteat(U(r.src, srccnt(r.src) - 1), j))
+//@   modifies this.off, elems(byte), ghost:srccnt
+//@   ensures full: n == len(p) && err == nil
+//@   ensures stream: forall j: int :: 0 <= j && j < len(p) ==> p[j] == byteat(U(r.src, (pos(old(srccnt(r.src)), old(r.off)) + j) / 8), (pos(old(srccnt(r.src)), old(r.off)) + j) % 8)
+//@   ensures advance: pos(srccnt(r.src), r.off) == pos(old(srccnt(r.src)), old(r.off)) + len(p)
+//@   ensures shape: 0 <= r.off && r.off < 8 && srccnt(r.src) >= 0
+//@   ensures buffered: r.off != 0 ==> srccnt(r.src) >= 1 && (forall j: int :: 0 <= j && j < 8 ==> r.buf[j] == byteat(U(r.src, srccnt(r.src) - 1), j))
+//@   loop 1 invariant n: 0 <= n && n <= len(p)
+//@   loop 1 invariant shape: 0 <= r.off && r.off < 8 && srccnt(r.src) >= 0
+//@   loop 1 invariant buffered: r.off != 0 ==> srccnt(r.src) >= 1 && (forall j: int :: 0 <= j && j < 8 ==> r.buf[j] == byteat(U(r.src, srccnt(r.src) - 1), j))
+//@   loop 1 invariant position: pos(srccnt(r.src), r.off) == pos(old(srccnt(r.src)), old(r.off)) + n
+//@   loop 1 invariant stream: forall j: int :: 0 <= j && j < n ==> p[j] == byteat(U(r.src, (pos(old(srccnt(r.src)), old(r.off)) + j) / 8), (pos(old(srccnt(r.src)), old(r.off)) + j) % 8)
+//@   loop 2 invariant i: 0 <= i && i <= 8 && r.off == 0 && 0 <= n && n < len(p)
+//@   loop 2 invariant drawn: srccnt(r.src) >= 1 && val == U(r.src, srccnt(r.src) - 1)
+//@   loop 2 invariant filled: forall j: int :: 0 <= j && j < i ==> r.buf[j] == byteat(val, j)
+//@   loop 2 invariant position: 8 * (srccnt(r.src) - 1) == pos(old(srccnt(r.src)), old(r.off)) + n
+//@   loop 2 invariant stream: forall j: int :: 0 <= j && j < n ==> p[j] == byteat(U(r.src, (pos(old(srccnt(r.src)), old(r.off)) + j) / 8), (pos(old(srccnt(r.src)), old(r.off)) + j) % 8)
